@@ -74,8 +74,7 @@ Proof. exact other_objects_irrelevant. Qed.
 (* FULL: deepcopy leaves every existing object (attributes, flag, cache) as it was *)
 Theorem C13_copy_keeps_originals : forall cfg st o t ob, get st t = Some ob ->
   exists ob', get (fst (step cfg (OCopy o) st)) t = Some ob' /\
-              okind ob' = okind ob /\ oattrs ob' = oattrs ob /\ onitems ob' = onitems ob /\ oidn ob' = oidn ob /\
-              ofrozen ob' = ofrozen ob /\ (epochs cfg = false -> ob' = ob).
+              okind ob' = okind ob /\ oattrs ob' = oattrs ob /\ onitems ob' = onitems ob /\ kept ob ob'.
 Proof. exact copy_keeps_originals. Qed.
 
 (* HISTORY, REFUTED for the wrapper without try/finally (the code before 5afd9f1; Model.wrapper_cleanup = false):
@@ -88,8 +87,8 @@ Theorem C13_coherent_legacy_refuted_stale_ancestor : ~ coherent_everywhere cfg_f
 Proof. exact refuted_stale_ancestor. Qed.
 
 (* for the repaired wrapper (try/finally) failing calls are inside the guard *)
-Theorem C13_repaired_allows_failing_calls : forall cl pr d i gd gt ep st o,
-  guard (mkConfig cl pr true d i gd gt ep) st (OFailWalk o).
+Theorem C13_repaired_allows_failing_calls : forall cl pr d i gd gt ep tr st o,
+  guard (mkConfig cl pr true d i gd gt ep tr) st (OFailWalk o).
 Proof. exact repaired_allows_failing_calls. Qed.
 
 (* FULL (given a successful freeze, i.e. enough fuel / a finite acyclic depth): freeze reaches every
@@ -118,7 +117,7 @@ Proof. exact tuple_unprotected. Qed.
 
 (* FULL: effects of accepted modifications on a Model, of append and of delattr (which no flag stops) *)
 Theorem C13_setattr_model_effect : forall cfg st o ob cls name v,
-  get st o = Some ob -> okind ob = KModel cls -> ofrozen ob = false -> frozen_pm st v = false -> has_us name = false ->
+  get st o = Some ob -> okind ob = KModel cls -> ofrozen ob = false -> frozen_pm cfg st v = false -> has_us name = false ->
   let st' := fst (step cfg (OSet o name v) st) in
   comp_at st' o = Some (KModel cls, set_attr name v (oattrs ob), onitems ob) /\
   (forall t, t <> o -> comp_at st' t = comp_at st t) /\
@@ -126,7 +125,7 @@ Theorem C13_setattr_model_effect : forall cfg st o ob cls name v,
 Proof. exact setattr_model_effect. Qed.
 
 Theorem C13_setattr_model_frozen_value : forall cfg st o ob cls name v,
-  get st o = Some ob -> okind ob = KModel cls -> ofrozen ob = false -> frozen_pm st v = true ->
+  get st o = Some ob -> okind ob = KModel cls -> ofrozen ob = false -> frozen_pm cfg st v = true ->
   step cfg (OSet o name v) st = (st, Exn EAssertion).
 Proof. exact setattr_model_frozen_value. Qed.
 
@@ -193,7 +192,7 @@ Proof. exact derive_thaws_flags. Qed.
 (* the configuration the theorems are instantiated with by the correspondence is today's code *)
 Theorem C13_current_configuration :
   wrapper_cleanup = true /\ derive_thaws = false /\ setitem_transfers = false /\
-  delattr_guarded = true /\ tuples_frozen = true /\ cache_counts_modifications = true.
+  delattr_guarded = true /\ tuples_frozen = true /\ cache_counts_modifications = true /\ tuple_flag_restored = true.
 Proof. exact current_is_fixed. Qed.
 
 (* HEADLINE, FULL: for the code as it is now (every class table, every prior pool) every query of EVERY history --
@@ -201,7 +200,7 @@ Proof. exact current_is_fixed. Qed.
    failing call -- answers exactly what the uncached query answers on the current composition. No guard. *)
 Theorem C13_coherent_full : forall cl pr,
   coherent_everywhere (mkConfig cl pr wrapper_cleanup derive_thaws setitem_transfers delattr_guarded tuples_frozen
-                                cache_counts_modifications).
+                                cache_counts_modifications tuple_flag_restored).
 Proof. exact coherent_current. Qed.
 
 (* the general form (6ba0708 delattr guard, b49160e tuple priors, 29fc8b9 modification counter, 5afd9f1 wrapper):
@@ -226,6 +225,30 @@ Theorem C13_frozen_tuples_reject_at_depth : forall cfg st o t kd attrs k u name 
   let st' := fst (step cfg (OFreeze o) st) in
   step cfg (OSet u name v) st' = (st', Exn EAssertion).
 Proof. exact frozen_tuples_reject_at_depth. Qed.
+
+(* restoring stored state (pickle, copy, deepcopy, database form; 916e580). FULL: rebuilding from the database form never
+   raises, a shallow copy exists whenever the object does, and its TuplePriors carry the flag of the copy;
+   deep copies / database forms: flag equality is decided on every generated history (Proofs3.tuple_flags_ok in check_guard)
+   and shown on Witness.restore_now *)
+Theorem C13_restore_never_raises : forall cfg st o,
+  trestore cfg = true -> snd (step cfg (ORestore o RDatabase) st) = Ok AUnit.
+Proof. exact restore_never_raises. Qed.
+
+Theorem C13_restore_shallow_ok : forall cfg st o ob, get st o = Some ob ->
+  snd (step cfg (ORestore o RShallow) st) = Ok AUnit.
+Proof. exact restore_shallow_ok. Qed.
+
+Theorem C13_restore_shallow_tuple_flags : forall cfg st o ob k u ub,
+  gtuple cfg = true -> trestore cfg = true -> epochs cfg = false ->
+  get st o = Some ob -> is_pm_kind (okind ob) = true -> In (k, VRef u) (oattrs ob) -> get st u = Some ub -> okind ub = KTuple ->
+  let st' := fst (step cfg (ORestore o RShallow) st) in
+  get st' (List.length (heap st)) = Some (with_cache ob []) /\ flagged (ofrozen ob) (heap st') u.
+Proof. exact restore_shallow_tuple_flags. Qed.
+
+(* HISTORY (b49160e without 916e580), REFUTED: the database form of a frozen model holding a TuplePrior raised *)
+Theorem C13_restore_legacy_refuted :
+  snd (step cfg_norestore (ORestore 1 RDatabase) (fst (run cfg_norestore h_restore init0))) = Exn EAssertion.
+Proof. exact restore_legacy_raises. Qed.
 
 Print Assumptions C13_coherent_partial.
 Print Assumptions C13_history_independent.
